@@ -467,7 +467,7 @@ impl Report {
                 agg.violations.push((
                     i,
                     Violation {
-                        fingerprint: format!("worker process died (abort/stack overflow) in {}", agg.check),
+                        fingerprint: format!("worker process died (abort/stack overflow) in {} on {}", agg.check, d.lines().next().unwrap_or("").chars().take(70).collect::<String>()),
                         detail: format!("worker died on case {}: {}", i, d),
                     },
                 ));
@@ -497,7 +497,7 @@ impl Report {
                 let hit = known
                     .findings
                     .iter()
-                    .position(|k| k.property == self.property && v.fingerprint.contains(&k.fingerprint));
+                    .position(|k| k.property.split(',').any(|p| p.trim() == self.property) && v.fingerprint.contains(&k.fingerprint));
                 match hit {
                     | Some(k) => *known_hits.entry(k).or_insert(0) += 1,
                     | None => new_violations.push((agg.check.clone(), *i, v.clone())),
